@@ -201,6 +201,7 @@ def _analyze(tier, seed):
         if list(reg._REGISTRY) != before:
             res.fail("a refused register() changed the shipped registry", dict(op="law-register-unchanged"), dict(id=ids[0]))
     _instantiate(res, jumanji, reg, ids, tier, seed)
+    res.xsamples = {k: v[:2] for k, v in core.XSAMPLES.items()}
     return res
 
 
